@@ -97,6 +97,15 @@ def cases(tier, seed):
             for ctl in ("Fixed", "Exact", "DistanceRatio"):
                 c = default(); c["penalty"] = pen; c["control"] = ctl; c["iteration_limit"] = H
                 out.append({"spec": spec, "cfg": c, "sc": None})
+    # single precision on isotropic quadratics (straight trajectories: path length and direct distance coincide up to rounding)
+    for n_ in (2, 3):
+        for c_ in (1.0, 0.37, 12.5):
+            for x0 in ([3.0, -1.0, 2.0], [0.3, 0.7, -0.2], [100.0, 33.0, -71.0], [1e-3, 2e-3, -3e-3]):
+                for linit in (1.0, 0.1, 7.0):
+                    spec = G.raw(n_, {"H": (c_ * np.eye(n_)).tolist(), "g": [-c_ * v for v in [1.0, -2.0, 0.5][:n_]]}, [], ["-inf"] * n_, ["inf"] * n_, x0[:n_],
+                                 f"isotropic|{n_}|{c_}|{x0[0]}")
+                    c = default(); c["iteration_limit"] = 60; c["opts"] = "single"; c["params"] = {"lamb_init": linit}
+                    out.append({"spec": spec, "cfg": c, "sc": None})
     # a second solve on a solver object whose first solve ended in a (deliberate) error or was aborted: a status or a deliberate error again
     for spec in (G.core_specs()[:3] + G.adversarial_specs()[:3]):
         for ctl in ("DistanceRatio", "Exact", "Fixed"):
